@@ -7,10 +7,10 @@
  "kind": "bounded",
  "bound": "initialiser lists of <= 3 nodes before the insertion; all byte ranges below 2^32 and all bit-field before/after pairs symbolic; every scan start position p->last",
  "cflags": ["-DN=3"],
- "unwindset": ["initadd.0:5", "initadd.1:5", "build.0:4", "walk.0:6", "listinv.0:6", "listinv.1:6", "pos_of.0:6", "harness.0:4", "harness.1:4", "harness.2:2", "observe_post.0:4"],
+ "unwindset": ["initadd.0:5", "initadd.1:5", "build.0:4", "walk.0:6", "listinv.0:6", "listinv.1:6", "pos_of.0:6", "harness.0:4", "harness.1:4", "harness.2:4", "observe_post.0:4", "idx_of.0:4"],
  "timeout": 300,
  "tiers": {"thorough": {"cflags": ["-DN=5"], "timeout": 1500,
-           "unwindset": ["initadd.0:7", "initadd.1:7", "build.0:6", "walk.0:8", "listinv.0:8", "listinv.1:8", "pos_of.0:8", "harness.0:6", "harness.1:6", "harness.2:2", "observe_post.0:6"],
+           "unwindset": ["initadd.0:7", "initadd.1:7", "build.0:6", "walk.0:8", "listinv.0:8", "listinv.1:8", "pos_of.0:8", "harness.0:6", "harness.1:6", "harness.2:6", "observe_post.0:6", "idx_of.0:6"],
            "bound": "initialiser lists of <= 5 nodes before the insertion; all byte ranges below 2^32 and all bit-field before/after pairs symbolic; every scan start position p->last"}},
  "expects": ["assertion_verif"],
  "assumes": ["the statement is for lists of ANY length; it is checked up to the stated bound only",
@@ -45,27 +45,66 @@ struct init g_nd0[N], g_nw0;         /* pre-state copies (frame) */
 bool g_pre_inv;                      /* INV(old list) */
 bool g_pre_prefix;                   /* nodes before the scan start are before nw or strictly cover it */
 
-/* post-state observations */
+/* same pointer?  (object number + offset instead of ==: keeps CBMC's value-set based simplifier quiet; identical natively) */
+#ifdef VERIF_REPLAY
+#define SAMEP(p, q) ((const void *)(p) == (const void *)(q))
+#else
+#define SAMEP(p, q) (__CPROVER_POINTER_OBJECT(p) == __CPROVER_POINTER_OBJECT(q) && __CPROVER_POINTER_OFFSET(p) == __CPROVER_POINTER_OFFSET(q))
+#endif
+
+/*
+ * observations of a list: the nodes reachable from the head, as node INDICES (0..N-1 = nd[i], N = nw, NOIDX = something
+ * else), so that the contract speaks about scalars only; bit ranges are taken from the pre-state copies (the frame
+ * clauses say they do not change)
+ */
+#define NOIDX (N + 1)
 struct lobs {
 	unsigned len;                /* nodes reachable from p->init (capped at N+2) */
 	bool terminated;             /* the walk reached NULL within N+1 nodes */
-	struct init *at[N + 2];
+	unsigned at[N + 2];
 };
 static struct lobs g_post;
 bool g_post_inv;
 int g_pos[N], g_posnew;              /* position of each old node / of nw in the new list, -1 = not in the list */
 bool g_lastok;                       /* p->last == &nw.next */
+u64 g_bs[N + 2], g_be[N + 2];        /* bit range of node index i (pre-state); [NOIDX] = empty */
+
+static unsigned
+idx_of(const struct init *x)
+{
+	unsigned i, r = NOIDX;
+
+	for (i = 0; i < N; ++i) {
+		if (SAMEP(x, &nd[i]))
+			r = i;
+	}
+	if (SAMEP(x, &nw))
+		r = N;
+	return r;
+}
+
+static struct init *
+node_of(unsigned i)
+{
+	return i < N ? &nd[i] : i == N ? &nw : 0;
+}
 
 static void
 walk(struct init *head, struct lobs *o)
 {
-	unsigned k;
+	unsigned k, i;
 
-	for (k = 0; k < N + 2 && head; ++k, head = head->next)
-		o->at[k] = head;
+	for (k = 0; k < N + 2 && head; ++k) {
+		i = idx_of(head);
+		o->at[k] = i;
+		head = i == NOIDX ? 0 : node_of(i)->next;
+	}
 	o->len = k;
 	o->terminated = head == 0;
 }
+
+#define IDISJ(a, b)    (g_be[a] <= g_bs[b])
+#define ISCOVERS(a, b) (g_bs[a] <= g_bs[b] && g_be[b] <= g_be[a] && (g_bs[a] < g_bs[b] || g_be[b] < g_be[a]))
 
 /* INV: for i before j: disjoint with i first, or i strictly covers j.  (=> sorted by bit start; no duplicates) */
 static bool
@@ -76,7 +115,7 @@ listinv(const struct lobs *o)
 
 	for (i = 0; i < N + 2; ++i) {
 		for (j = 0; j < N + 2; ++j) {
-			if (i < j && j < o->len && !(DISJ(o->at[i], o->at[j]) || SCOVERS(o->at[i], o->at[j])))
+			if (i < j && j < o->len && !(IDISJ(o->at[i], o->at[j]) || ISCOVERS(o->at[i], o->at[j])))
 				ok = false;
 		}
 	}
@@ -84,13 +123,13 @@ listinv(const struct lobs *o)
 }
 
 static int
-pos_of(const struct lobs *o, const struct init *x)
+pos_of(const struct lobs *o, unsigned idx)
 {
 	unsigned k;
 	int r = -1;
 
 	for (k = 0; k < N + 2; ++k) {
-		if (k < o->len && o->at[k] == x && r < 0)
+		if (k < o->len && o->at[k] == idx && r < 0)
 			r = (int)k;
 	}
 	return r;
@@ -170,9 +209,9 @@ observe_post(void)
 	walk(P.init, &g_post);
 	g_post_inv = g_post.terminated && listinv(&g_post);
 	for (i = 0; i < N; ++i)
-		g_pos[i] = pos_of(&g_post, &nd[i]);
-	g_posnew = pos_of(&g_post, &nw);
-	g_lastok = P.last == &nw.next;
+		g_pos[i] = pos_of(&g_post, i);
+	g_posnew = pos_of(&g_post, N);
+	g_lastok = SAMEP(P.last, &nw.next);
 }
 
 void
@@ -203,6 +242,12 @@ harness(void)
 	nw.start = in_sn; nw.end = in_en; nw.bits.before = in_bn; nw.bits.after = in_an; nw.expr = &ex[N]; nw.next = 0;
 	__CPROVER_assume(VALIDNODE(&nw));
 	g_nw0 = nw;
+	for (i = 0; i < N; ++i) {
+		g_bs[i] = BS(&nd[i]);
+		g_be[i] = BE(&nd[i]);
+	}
+	g_bs[N] = BS(&nw); g_be[N] = BE(&nw);
+	g_bs[NOIDX] = g_be[NOIDX] = 0;
 	build(in_n);
 	P.last = in_k == 0 ? &P.init : &nd[in_k - 1].next;
 	walk(P.init, &pre);
